@@ -130,12 +130,21 @@ def snap_signal(z):
     return tuple(parts)
 
 
+READER_CONFIG = ("_shape", "_dtype", "_sample_rate", "_start_time", "_signal_type", "_signal_kwargs",
+                 "_name", "_kwargs", "_intensity", "_complex_data", "_in_sample_shape",
+                 "_lower_sideband")
+
+
 def snap_reader(r):
+    """The reader's configuration as the caller can observe it: the documented attributes
+    and whatever signal_kwargs were set on it. Private scratch/cache attributes are NOT
+    part of it (a harmless memo must not raise an alarm; what a stale cache does to later
+    reads is judged by behaviour)."""
     d = r.__dict__
+    keys = [k for k in READER_CONFIG if k in d] + sorted(k for k in d.get("_signal_kwargs", {}) if k in d)
     out = []
-    for k in sorted(d):
-        v = d[k]
-        out.append((k, snap_any(v, depth=1)))
+    for k in keys:
+        out.append((k, snap_any(d[k], depth=1)))
     return ("reader", type(r).__name__, tuple(out))
 
 
